@@ -57,3 +57,62 @@ PLANS = {
                      "+,-,+=,-= and difference on VirtAddr/PhysAddr/Page/PhysFrame (3 sizes): boundary bases x boundary offsets + random, in BOTH build profiles (dev: overflow checks on, release: off); exclusive and inclusive page/frame ranges ending at / starting before the last page of each half, the last physical frame, zero, random interior, fully iterated (length <= 700) with len()/size(); distinct = distinct (operation, operands)",
                      profiles=("dev", "rel")),
 }
+
+
+PT_ASSUME = [
+    "PageTables.tla states the intended meaning of the Mapper/Translate/CleanUp calls (written from the trait documentation and the property text); Arch bit layout of entries as in the SDM/APM",
+    "design check: TLC explores every reachable hierarchy of a small universe (MC_PT_*.cfg) - all histories within it, unbounded length; the real crate is driven on seeded random histories over the large universe (all 512 indices, frames up to 2^52) and every call is validated",
+    "user obligations of the unsafe API are respected by the driver (aligned frames, leaf/parent flags contain PRESENT, parent flags without HUGE_PAGE, no use of bit 12 as a flag, pages outside the recursive slot)",
+    "mapper kinds in this run: MappedPageTable (arbitrary frame-to-pointer map over a memfd arena) and OffsetPageTable (several lower-half offsets incl. 0)",
+    "TLC, CommunityModules and the harness's snapshot/diff of simulated physical memory are trusted",
+]
+
+
+def stateful_prefix(trace_path, n):
+    """lines of the behaviour that contains line n, from its reset up to line n"""
+    lines = open(trace_path).read().split("\n")
+    start = n
+    while start > 1 and '"op":"reset"' not in lines[start - 1]:
+        start -= 1
+    return lines[start - 1:n]
+
+
+def pt_replay_lines(unknown, _lines):
+    out = []
+    for e in unknown[:5]:
+        out += stateful_prefix(e["_trace"], e["_line"])
+    return out
+
+
+def pt_plan(mix, n_quick, n_thorough, rule, design_quick, design_thorough, kinds="mapped,offset"):
+    def mk(tier, seed):
+        design = [{"module": "MC_PT", "cfg": c, "workers": 12, "timeout": 900} for c in design_quick]
+        if tier == "thorough":
+            design += [{"module": "MC_PT", "cfg": c, "workers": 16, "timeout": 14400, "xmx": "24g"} for c in design_thorough]
+        n = n_quick if tier == "quick" else n_thorough
+        seeds = [seed] if tier == "quick" else [seed + 7 * k for k in range(6)]
+        runs = []
+        for sd in seeds:
+            for prof in (("dev",) if tier == "quick" else ("dev", "rel")):
+                runs.append({"name": "pt_%s_%d" % (mix, sd), "prof": prof,
+                             "args": ["pt", "--prop", mix, "--mode", kinds, "--seed", str(sd), "--n", str(n)],
+                             "vtimeout": 3600})
+        return {"design": design, "runs": runs, "trace_module": "Trace_PT", "level": "model_checking",
+                "rule": rule, "assumptions": PT_ASSUME, "replay_lines": pt_replay_lines}
+    return mk
+
+
+PLANS.update({
+    "C01": pt_plan("default", 7000, 60000,
+                   "behaviours = seeded random call histories (30-120 calls of map/identity-map/unmap/update_flags/set_flags_p4-p2/clean_up/translate_page of the 3 sizes, nested and neighbouring pages from a small hot index set per behaviour incl. first/last page of each half; half of the calls aim at currently mapped pages) on MappedPageTable and OffsetPageTable; after each call the raw changed slots are compared with the specification and 3-4 probe addresses are translated (translate, translate_addr, translate_page vs. hardware walk vs. history); distinct = distinct (operation, arguments)",
+                   ["MC_PT_t1.cfg"], ["MC_PT_tiny.cfg"]),
+    "C02": pt_plan("errors", 7000, 60000,
+                   "as C01 with an operation mix that favours failing calls; the allocator fails at the 1st, 2nd or 3rd request of half of the map calls; for every call that returned an error the error kind must be the documented one (any error where the documentation is silent) and the raw table memory must be unchanged except allowed parent-flag widening / freshly linked zeroed tables; distinct = distinct (operation, arguments)",
+                   ["MC_PT_t1.cfg"], ["MC_PT_tiny.cfg"]),
+    "C09": pt_plan("alloc", 7000, 60000,
+                   "as C01 with an allocation-heavy mix over physical memory pre-filled with non-zero junk; the allocator hands out fresh, recycled (freed by clean_up, re-junked) and 2MiB/1GiB-aligned frames in random order; per call: the set of frames the mapper asked a pointer for (MappedPageTable; exact) must be tables of the hierarchy or just allocated, no other 8-byte slot of the arena may change, every non-zero slot of a new table must be one the call wrote, allocator requests = missing tables (<= 1/2/3), no alloc/dealloc elsewhere; distinct = distinct (operation, arguments)",
+                   ["MC_PT_t1.cfg"], ["MC_PT_tiny.cfg"]),
+    "C10": pt_plan("clean", 7000, 60000,
+                   "as C01 with a clean-up-heavy mix: clean_up and clean_up_addr_range with ranges that are empty/reversed, a single page, exactly one level-1/2/3 table, unaligned, spanning the canonical gap, ending at the last page, the whole space; half of the clean-ups are repeated immediately; freed set D must satisfy InsideEmpty <= D <= OverlapEmpty, each frame once, unlinked before release, translations unchanged, second call frees nothing; distinct = distinct (operation, arguments)",
+                   ["MC_PT_t1.cfg"], ["MC_PT_tiny.cfg"]),
+})
